@@ -97,6 +97,9 @@ def insert (hasDb : Bool) (s : Store) : Nat → WN → List Nib → WN → IRes
           if vv = nv then { node := .value vh vv vw vd }
           else { node := .value vh nv nw true, change := (nw : Int) - vw }
         | _ => { node := node, err := some .panic }
+      -- fix 5dc7120: the key ends at a branch or short node below the full key depth
+      | .routing _ _ _ _ _ => { node := node, err := some .invalidKey }
+      | .short _ _ _ _ _ => { node := node, err := some .invalidKey }
       | _ => { node := value, change := value.weight }
   | fuel + 1, node, k :: ks, value =>
     match node with
@@ -111,6 +114,9 @@ def insert (hasDb : Bool) (s : Store) : Nat → WN → List Nib → WN → IRes
       if p = key.length then
         let r := insert hasDb s fuel c ((k :: ks).drop p) value
         { node := .short key h r.node true tc, change := r.change, err := r.err, td := r.td }
+      else if p = (k :: ks).length then
+        -- fix 5dc7120: the key ends inside this node's key
+        { node := .short key h c true tc, err := some .invalidKey }
       else
         match nibOf (key.getD p 0), (k :: ks)[p]? with
         | some i1, some i2 =>
@@ -167,7 +173,7 @@ def delete (hasDb : Bool) (s : Store) : Nat → WN → List Nib → DRes
           | n' => { node := .short sk h n' true tc, change := r.change, td := r.td }
     | .routing h ch w d tc =>
       match key with
-      | [] => { node := .routing h ch w d tc, err := some .panic }
+      | [] => { node := .routing h ch w d tc, err := some .notFound }   -- a branch below the full key depth (round-4 fix)
       | k :: ks =>
         let r := delete hasDb s fuel (ch k) ks
         match r.err with
@@ -309,8 +315,13 @@ def eraseAll (l : List Bytes) (xs : List Bytes) : List Bytes := l.filter (fun k 
 /-- `Commit(collapseLevel)`: the trie afterwards and the batch (to be applied by the caller) -/
 def commit (t : WT) (collapse : Int) : WT × List StoreOp :=
   -- what the uncommitted changes superseded is queued for GC only now (fix a54b110)
+  let hadChanges := !t.pending.isEmpty
   let t : WT := { t with tempDeleted := t.tempDeleted ++ t.pending, pending := [] }
-  if !t.root.dirty then (t, [])
+  if !t.root.dirty then
+    -- nothing to write. After the deletion of every key the root is the (clean) empty node although there were changes:
+    -- this commit creates no node and the previous commit's list must not be rolled back in its place (round-4 fix); a
+    -- genuinely clean second commit keeps the list
+    (if hadChanges then { t with created := [] } else t, [])
   else
     let r : CRes := match t.root with
       | .routing h ch w d tc =>
